@@ -733,6 +733,44 @@ def special_programs():
         'function fr(uint a) pure space=0x10 returns (uint) { return a / 4; }')
     add('free-function-modifier-args', PRELUDE + 'function fr(uint a) mm(a + 1, a * 2) lib.md(a >= 3) returns (uint) { return a; }\n'
         'contract A { uint x; modifier mm(uint p, uint q) { _; } function f(uint a) public mm(x = 1, a / 2 * 3) returns (uint) { return a; } }')
+    add('tuple-gaps', PRELUDE + 'contract A { uint p; uint r; uint[] arr; function g() public returns (uint, uint, uint) { return (1, 2, 3); }\n'
+        '  function f(uint i) public { (p, , r) = g(); (, uint b, uint c) = g(); (uint a, , ) = g(); (p, , arr[i++]) = g(); (, , r) = g(); ((p), , (r + 0, i--)); b = c + a; } }')
+    add('for-update-and-body', PRELUDE + 'contract A { uint total; function f(uint n) public { for (uint i = 0; i < n; i++) { total++; } '
+        'for (uint j; j < n; j += 1) total += 2; for (uint k; k < n; k++) { for (uint l; l < k; l++) { total = total + 1; } } } }')
+    add('conversion-noargs', PRELUDE + 'contract A { function f(uint c) public returns (uint x) { x = uint256() * c; x = (address() * c) * 3; x /= bytes32() * 2; '
+        'x = uint8(c / 2) * 3; x = payable() + c; } }')
+    add('empty-declarations', PRELUDE + 'struct Empty {}\ncontract A { struct Inner {} }\ncontract B {}\ninterface I {}\nlibrary L {}\nabstract contract C {}')
+    add('nested-parentheses', PRELUDE + 'contract A { function f(uint a, uint b, uint c, uint x) public returns (uint) { x = ((a / b)) * c; x /= ((a * b)); x = (((a / b))) * c; '
+        'x /= (((a * b)) + 1); x = ((a)) * ((2)); x = ((a / b) * c) * x; require(((a > 0 && b > 0))); if (((a)) == ((true ? 1 : 0))) { } return x; } }')
+    add('sender-conversions', PRELUDE + 'contract A { address owner; event Killed(uint256 who);\n'
+        '  function k1() external { selfdestruct(payable(address(uint160(msg.sender)))); }\n'
+        '  function k2() external { emit Killed(uint256(uint160(msg.sender))); selfdestruct(payable(owner)); }\n'
+        '  function k3() external { bytes20 b = bytes20(msg.sender); selfdestruct(payable(owner)); }\n'
+        '  function k4() external { require(msg.sender == owner); selfdestruct(payable(owner)); }\n'
+        '  function k5() external { check(msg.sender); selfdestruct(payable(owner)); }\n  function check(address a) internal { }\n}')
+    add('version-like-other-pragma', 'pragma experimental "v0.5.0";\npragma solidity 0.8.4;\ncontract A { using SafeMath for uint; function f(uint z) public { '
+        'require(z > 0, "x"); require(z > 1, "this message is definitely longer than thirty-two bytes"); z = z.add(2); } }')
+    add('version-like-other-pragma-after', 'pragma solidity 0.7.6;\npragma experimental "v0.9.1";\npragma abicoder v2;\ncontract A { using SafeMath for uint; function f(uint z) public { '
+        'require(z > 0, "x"); require(z > 1, "this message is definitely longer than thirty-two bytes"); z = z.add(2); } }')
+    add('unicode-revert-strings', 'pragma solidity 0.8.3;\ncontract A { function f(uint a) public { require(a != 0, unicode"\u00e9\u00e9\u00e9\u00e9\u00e9\u00e9\u00e9\u00e9\u00e9\u00e9\u00e9\u00e9\u00e9\u00e9\u00e9\u00e9"); '
+        'require(a != 1, unicode"\u4ee3\u5e01\u4ee3\u5e01\u4ee3\u5e01\u4ee3\u5e01\u4ee3\u5e01\u4e00"); require(a != 2, unicode"\u00e9\u00e9\u00e9\u00e9\u00e9\u00e9\u00e9\u00e9\u00e9\u00e9\u00e9\u00e9\u00e9\u00e9\u00e9x"); '
+        'require(a != 3, "0123456789012345678901234567890"); require(a != 4, "01234567890123456789012345678901"); } }')
+    add('unicode-revert-strings-new', 'pragma solidity 0.8.4;\ncontract A { function f(uint a) public { require(a != 0, unicode"\u00e9\u00e9\u00e9\u00e9\u00e9\u00e9\u00e9\u00e9\u00e9\u00e9\u00e9\u00e9\u00e9\u00e9\u00e9\u00e9"); } }')
+    add('same-line-findings', PRELUDE + 'contract A { uint256 private x; uint256 private y; address t; function f(uint a, uint b) public { a++; b--; '
+        'require(a != 0 && t != address(0)); IERC20(t).transfer(t, 1); IERC20(t).approve(t, 2); x = a + b; y = a * 2 + b / 4; } }')
+    add('mixed-line-ends', '// SPDX-License-Identifier: MIT\r\n// header written on another system\r\npragma solidity ^0.8.10;\ncontract A {\n  uint n;\r\n  function f() public {\n'
+        'n++;\n  n = n + 1;\r\nn--;\n  }\n}\n')
+    add('column-zero-tokens', PRELUDE + 'contract A {\nuint\npublic\n_v;\nfunction\n_f\n(\n)\npublic\n{\n}\nfunction g() public {}\nconstructor\n(\n)\n{\n}\nuint constant\nK = 1;\n}')
+    add('multi-line-findings', PRELUDE + 'struct S1 {\n  uint128 a;\n  uint256 b;\n  uint128 c;\n}\ncontract P1 {\n  uint128 a;\n  uint256 b;\n  uint128 c;\n  struct S2 {\n    uint8 x;\n    uint256 y;\n    uint8 z;\n  }\n}\n'
+        'contract P2 {\n  bool a;\n  uint256 b;\n  bool c;\n  function f(uint q) public returns (uint) {\n    return q +\n      1;\n  }\n}')
+    add('interleaved-sizes', PRELUDE + 'contract A { uint8 a; uint248 b; uint16 c; uint240 d; }\nstruct S { uint8 a; uint248 b; uint16 c; uint240 d; }\n'
+        'struct T3 { uint128 a; uint64[] xs; uint128 b; }\nstruct T4 { uint128 a; mapping(uint => uint) m; uint128 b; }\nstruct T5 { uint128 a; S s; uint128 b; }\ncontract B { uint128 a; uint64[] xs; uint128 b; }')
+    add('fallback-before-constructor', PRELUDE + 'contract A { fallback() external { } constructor() { } }\ncontract B { receive() external payable { } constructor() { } }\n'
+        'contract C { modifier m() { _; } constructor() { } }\ncontract D { event E(); error R(); struct S { uint a; } uint v; constructor() { } }\ncontract E2 { function f() external; constructor() { } }')
+    add('attr-order-mutability-first', PRELUDE + 'contract A { uint256 immutable public b; uint256 constant public K2 = 2; uint256 public immutable c; uint256 public constant K3 = 3; '
+        'bytes32 salt; bytes4 sel; uint plain; constructor(uint x, string memory s) { b = x; c = x; salt = bytes32(x); sel = bytes4(keccak256("f()")); plain = uint256(x); } }')
+    add('address-zero-multiline', PRELUDE + 'contract A { mapping(address => mapping(uint => address)) reg; function f(address a, uint id) public {\n  if (reg[a][id] ==\n      address(0)) { }\n'
+        '  require(\n    a\n    !=\n    address(0), "zero");\n  bool z = address(0)\n    == a;\n} }')
     add('free-functions', PRELUDE + 'function min(uint a, uint b) pure returns (uint) { return a < b ? a : b; }\n'
         'function twice(uint a) pure returns (uint) { return min(a, a) * 2; }\ncontract C { function f() public {} }\nfunction max(uint a, uint b) pure returns (uint) { return a >= b ? a : b; }')
     return P
